@@ -319,12 +319,14 @@ inductive Update where
   | sweepAllArgs  -- get_empty_args(All) + mutate_subsection[_ops](Some(args))
   | isingStep     -- QmcIsingGraph::timestep
   | genericStep   -- Qmc::timestep
+  | isingSteps    -- QmcStepper::timesteps(t, β) and friends on the Ising sampler; TemperingContainer::timesteps
+  | genericSteps  -- the same on the generic sampler
   | noPool        -- tempering_step / swap_manager_and_state / flip_free_bits / set_cutoff / getters
   deriving DecidableEq, Repr, Inhabited
 
 def Update.all : List Update :=
   [.diag, .heatbath, .cluster, .loopUpdate, .rvb, .install, .sweepOpsAll, .sweepOpsVar,
-   .sweepPsVar, .sweepAllArgs, .isingStep, .genericStep, .noPool]
+   .sweepPsVar, .sweepAllArgs, .isingStep, .genericStep, .isingSteps, .genericSteps, .noPool]
 
 def grammar : Update → G
   | .diag => sweepPs
@@ -339,6 +341,8 @@ def grammar : Update → G
   | .sweepAllArgs => sweepAllArgs
   | .isingStep => isingStep
   | .genericStep => genericStep
+  | .isingSteps => .star isingStep
+  | .genericSteps => .star genericStep
   | .noPool => .eps
 
 /-- Everything a history of public calls can do to the pool. -/
@@ -357,6 +361,8 @@ def Update.ofString? : String → Option Update
   | "sweepallargs" => some .sweepAllArgs
   | "istep" => some .isingStep
   | "gstep" => some .genericStep
+  | "isteps" => some .isingSteps
+  | "gsteps" => some .genericSteps
   | "nopool" => some .noPool
   | _ => none
 
